@@ -386,6 +386,64 @@ theorem findMatch_le (rd : ResourceDef) (path : List Char) (n : Nat)
       · exact dyn _ h
       · cases h
 
+/-! ### unique decomposition for slash-separated patterns -/
+
+theorem split_at_slash : ∀ (w w' x x' : List Char), '/' ∉ w → '/' ∉ w' →
+    w ++ '/' :: x = w' ++ '/' :: x' → w = w' ∧ x = x'
+  | [], [], x, x', _, _, h => by simpa using h
+  | [], c :: w', x, x', _, h2, h => by
+    simp only [List.nil_append, List.cons_append, List.cons.injEq] at h
+    exact absurd (by rw [← h.1]; simp) h2
+  | c :: w, [], x, x', h1, _, h => by
+    simp only [List.nil_append, List.cons_append, List.cons.injEq] at h
+    exact absurd (by rw [h.1]; simp) h1
+  | c :: w, c' :: w', x, x', h1, h2, h => by
+    simp only [List.cons_append, List.cons.injEq] at h
+    obtain ⟨hc, ht⟩ := h
+    have := split_at_slash w w' x x' (fun hm => h1 (List.mem_cons_of_mem _ hm))
+      (fun hm => h2 (List.mem_cons_of_mem _ hm)) ht
+    exact ⟨by rw [hc, this.1], this.2⟩
+
+theorem langSegs_unique : ∀ {segs : List Seg} {m : List Char} {vals vals' : List (Name × List Char)},
+    Separated segs → LangSegs segs m vals → LangSegs segs m vals' → vals = vals'
+  | [], _, _, _, _, .nil, h2 => by cases h2; rfl
+  | .const cs :: rest, _, _, _, hs, h1, h2 => by
+    cases h1 with
+    | const h1 =>
+      rename_i v
+      generalize hm : cs ++ v = m at h2
+      cases h2 with
+      | const h2 =>
+        rename_i v'
+        have : v = v' := by simpa using hm
+        subst this
+        exact langSegs_unique (segs := rest) hs h1 h2
+  | .var n re :: rest, _, _, _, hs, h1, h2 => by
+    obtain ⟨hno, hnext, hsep⟩ := hs
+    cases h1 with
+    | var hr1 h1 =>
+      rename_i w v vals1
+      generalize hm : w ++ v = m at h2
+      cases h2 with
+      | var hr2 h2 =>
+        rename_i w' v' vals2
+        have hw : w = w' ∧ v = v' := by
+          rcases hnext with hnil | ⟨cs, rest', hrest⟩
+          · subst hnil
+            cases h1; cases h2
+            simpa using hm
+          · subst hrest
+            cases h1 with
+            | const h1 =>
+              cases h2 with
+              | const h2 =>
+                rename_i x x'
+                simp only [List.cons_append] at hm
+                have := split_at_slash w w' _ _ (hno w hr1) (hno w' hr2) hm
+                exact ⟨this.1, by rw [List.cons_append, List.cons_append, this.2]⟩
+        obtain ⟨rfl, rfl⟩ := hw
+        rw [langSegs_unique hsep h1 h2]
+
 /-! ### what `parse` guarantees -/
 
 theorem parse_ok {pattern : List Char} {isPrefix forceDynamic : Bool} {pt : PatType} {segs : List Seg}
